@@ -223,8 +223,8 @@ fn theta_case(ver: u8, entries: &[u64], theta: u64, flags: u8, seed: u64, st: &m
         }
     }
     let empty = list.is_empty() && theta == max;
-    if list.is_empty() && theta < max && ver != 3 {
-        return Ok(()); // estimating with no entries is only expressible unambiguously in v3
+    if list.is_empty() && theta < max && ver == 4 {
+        return Ok(()); // writers do not use v4 without entries
     }
     let sh = refhash::seed_hash(seed);
     let img = sc::theta::encode(ver, &list, theta, empty, ordered, sh, single_flag, java_p);
@@ -376,6 +376,23 @@ fn td_case(form: u8, k: u16, cents: &[(u64, u64)], buffered: &[u64], reverse: bo
     }
     lib_call("TDigestMut::merge(local <- foreign)", || local.merge(&d))?;
     check!(local.total_weight() == total + 200, "C13.td_merge_weight", "{what}: merged weight {}", local.total_weight());
+    // merged into an empty digest, and into one whose values lie strictly inside the foreign range:
+    // the extremes of the result are the foreign image's min and max
+    let mut fresh = TDigestMut::new(k);
+    lib_call("TDigestMut::merge(empty <- foreign)", || fresh.merge(&d))?;
+    check!(fresh.total_weight() == total && fresh.min_value() == Some(mn) && fresh.max_value() == Some(mx), "C13.td_merge_into_empty", "{what}: empty <- foreign has weight {} min/max {:?} / {:?}, want {total} {mn} / {mx}", fresh.total_weight(), fresh.min_value(), fresh.max_value());
+    let mut inner = TDigestMut::new(k);
+    let mid = mn / 2.0 + mx / 2.0;
+    for _ in 0..3 {
+        inner.update(mid);
+    }
+    lib_call("TDigestMut::merge(inner <- foreign)", || inner.merge(&d))?;
+    check!(inner.total_weight() == total + 3 && inner.min_value() == Some(mn.min(mid)) && inner.max_value() == Some(mx.max(mid)), "C13.td_merge_extremes", "{what}: inner <- foreign has weight {} min/max {:?} / {:?}, want {mn} / {mx}", inner.total_weight(), inner.min_value(), inner.max_value());
+    lib_call("TDigestMut::merge(foreign <- inner)", || d.merge(&inner))?;
+    check!(d.total_weight() == 2 * total + 3 && d.min_value() == Some(mn.min(mid)) && d.max_value() == Some(mx.max(mid)), "C13.td_merge_extremes", "{what}: foreign <- inner has weight {} min/max {:?} / {:?}", d.total_weight(), d.min_value(), d.max_value());
+    let total = 2 * total + 3;
+    let (mn, mx) = (mn.min(mid), mx.max(mid));
+    let _ = mn;
     for i in 0..50 {
         lib_call("TDigestMut::update(restored)", || d.update(mx + i as f64))?;
     }
